@@ -114,7 +114,7 @@ func (s *sched) handler(name string, kv []any) {
 	<-g.release
 }
 
-const stepTimeout = 10 * time.Second
+const stepTimeout = 90 * time.Second // generous: forced schedules run next to other checks on a loaded machine
 
 // waitReachedOrDone waits until the goroutine parks at gate k or finishes.
 func waitReachedOrDone(s *sched, k string, done <-chan error) (reached bool, finished bool, err error) {
